@@ -16,7 +16,7 @@ LEVEL = "fault_enumeration"
 RULE = (
     "cases = (problem, method, callback kind, k, exception class[, second fault]) : for each of the problems {LP, bounded "
     "NLP, constrained QP, constrained non-quadratic problem with lazily compiled Hessian, model that triggers the "
-    "SLSQP->trust-constr retry, model whose objective and constraint are 420-term accumulations} a fault-free run counts the evaluations K of every callback kind (objective, "
+    "SLSQP->trust-constr retry, model with shared transcendental sub-expression objects and a parameter whose value read is a fault point inside the evaluation, model whose objective and constraint are 420-term accumulations} a fault-free run counts the evaluations K of every callback kind (objective, "
     "gradient, each constraint function, each constraint Jacobian, Hessian) and the calls K of every CACHE-CONSTRUCTION "
     "step (compile_expression, compile_jacobian, compile_hessian, symbolic gradient, LP extractor steps: crash points "
     "inside the construction of what the problem caches) and the calls K of every compiled closure wherever optyx makes them (also its own post-solve evaluations); then for EVERY k <= K of every kind "
@@ -36,6 +36,25 @@ ASSUMPTIONS = [
 ]
 
 CLASSES = (ValueError, FloatingPointError, MemoryError, KeyboardInterrupt)
+PARAM_HOOK = [None]      # set while a faulted solve runs: called on every read of a FaultyParameter's value
+
+
+def faulty_parameter(name, value):
+    """A Parameter whose value read is a fault point INSIDE optyx's compiled / tree evaluation (data that comes from a
+    live source may raise while it is read): the exception originates in the middle of an evaluation."""
+    from optyx import Parameter
+
+    class FaultyParameter(Parameter):
+        __slots__ = ()
+
+        @property
+        def value(self):
+            h = PARAM_HOOK[0]
+            if h is not None:
+                h()
+            return self._value
+
+    return FaultyParameter(name, value)
 
 
 def problems():
@@ -73,7 +92,17 @@ def problems():
             g = g + 0.001 * (x if i % 3 else y)
         return Problem().minimize(e + optyx.exp(0.1 * y)).subject_to(g <= 3)
 
+    def shared():
+        # one transcendental sub-expression OBJECT used several times, evaluated before a parameter is read
+        x, y = Variable("x", lb=-3, ub=3), Variable("y", lb=-3, ub=3)
+        p = faulty_parameter("p", 2.0)
+        e = optyx.exp(-x)
+        s_ = optyx.sin(y)
+        f = e + e * e + s_ * s_ + p * (y - 0.5) ** 2 + (x + y - 1) ** 2 + e * s_
+        return Problem().minimize(f).subject_to(e + p * y <= 6)
+
     return {
+        "shared-subexpr": (shared, ("auto", "L-BFGS-B", "SLSQP")),
         "deep-nlp": (deep, ("SLSQP", "trust-constr")),
         "lp": (lp, ("auto", "highs-ds")),
         "bounded-nlp": (bounded, ("auto", "L-BFGS-B", "trust-constr")),
@@ -177,9 +206,13 @@ def solve_with(P, method, counter, entry_fault=None, retry=False):
     kw = {} if method == "auto" else {"method": method}
     RETRY_FIRST_ANSWER["on"] = retry
     h = faulty_backend(counter, entry_fault)
-    with BuildSeam(counter):
-        with Seam(script=[h] * 6, passthrough=False) as s:
-            sol = P.solve(**kw)
+    PARAM_HOOK[0] = counter.wrap("param-read", lambda: None)
+    try:
+        with BuildSeam(counter):
+            with Seam(script=[h] * 6, passthrough=False) as s:
+                sol = P.solve(**kw)
+    finally:
+        PARAM_HOOK[0] = None
     return sol, s
 
 
